@@ -76,6 +76,8 @@ def build(sess, name="x"):
             _, n, t, src, dst, data, alive = e
             if not alive:
                 continue
+            if dst == caddr and src != saddr:
+                continue        # a connected UDP socket hands the application datagrams of its peer's address only (FakeUDPClient._deliver)
             if dst == caddr:
                 # timers due strictly before t fire first; on an exact tie the datagram is handled first (shorter wake-up path)
                 add("advance %s %d" % (C, ticks(t) - 1), ("advance", "c"))
